@@ -437,6 +437,17 @@ func vpDontCare(t *vpTokens) bool {
 
 func vpCompareParsers(t *vpTokens, cut bool, prefix string) {
 	want, acc := vpRefParse(t)
+	if vpDontCare(t) {
+		// the statement leaves open whether these are accepted; but a sequence that is not
+		// derivable even when they are allowed must still be rejected
+		if acc {
+			return
+		}
+		_, err := vpParseTokens(t, cut)
+		vpReach(prefix + "/underivable")
+		vpAssert(prefix+"/underivable-is-rejected", err != nil)
+		return
+	}
 	src, err := vpParseTokens(t, cut)
 	vpObserve("verdict", acc, err == nil)
 	if acc {
@@ -458,7 +469,6 @@ func VP_C02_tokens() {
 	if K > 0 {
 		vpAssume(!t.lb[0] || true)
 	}
-	vpAssume(!vpDontCare(t))
 	vpCompareParsers(t, true, "C02/tokens")
 }
 
@@ -557,7 +567,6 @@ func VP_C02_lists() {
 		t.kinds = append(t.kinds, SK_CloseBracket)
 	}
 	t.lb = append(t.lb, vpBool("lbclose"))
-	vpAssume(!vpDontCare(t))
 	vpCompareParsers(t, true, "C02/lists")
 }
 
